@@ -96,7 +96,7 @@ func reorderWKB(b []byte, pick func() bool) []byte {
 
 func wkbOnPanic(c Case) Event {
 	e := Event{"t": "Point", "ct": "XY", "c": []string{}}
-	return Event{"kind": c.str("kind"), "g": e, "bytes": []int{}, "bytes2": []int{}, "dec2": e, "dec2err": "", "dec": e, "decerr": "", "reenc": false, "append": false,
+	return Event{"kind": c.str("kind"), "g": e, "bytes": []int{}, "bytes2": []int{}, "dec2": e, "dec2err": "", "dec": e, "decerr": "", "valerr": "", "reenc": false, "append": false,
 		"trail": false, "value": false, "valid": false, "scan": []bool{}, "scansame": false, "null": []bool{}}
 }
 
@@ -165,6 +165,9 @@ func wkbExec(c Case) Event {
 		return ev
 	}
 	ev["dec"] = projectTree(dg)
+	if _, verr := geom.UnmarshalWKB(bs); verr != nil {
+		ev["valerr"] = errStr(verr) // the validating reader (the default)
+	}
 	pr := rand.New(rand.NewSource(int64(len(bs))*7919 + int64(bs[len(bs)-1])))
 	mode := pr.Intn(3) // all big endian, or mixed per element
 	bs2 := reorderWKB(bs, func() bool { return mode != 0 && pr.Intn(2) == 0 })
